@@ -252,8 +252,8 @@ const char* OPS[] = {"reset",        "setvalue",   "addvalue",     "setrow",    
                      "fill",         "addscalar",  "addscalardiag", "prodscalar",  "multiplyrow", "multiplycol", "dividerow",    "dividecol",
                      "transpose",    "addmat",     "lincomb",      "matvec",       "vecmat",      "getters",     "matmat",       "prodmatinplace",
                      "normmatmat",   "normmatvec", "copyreduce",   "invert",       "solve",       "cholesky",    "eigen",        "threads",
-                     "sparseflag",   "vecops",     "sparse-special", "copyindep"};
-const int NOPS = 36;
+                     "sparseflag",   "vecops",     "sparse-special", "copyindep",  "matmat-alias", "sparse-assign", "vecops"};
+const int NOPS = 39;
 
 struct Exec
 {
@@ -911,6 +911,55 @@ struct Exec
         cmpVector(sp->extractDiag(1), dg, nullptr, KN[q], "extractDiag", f, true);
       }
     }
+    else if (k == "matmat-alias")
+    {
+      // products whose destination is one of the operands (first, second, or both)
+      if (!R.square() || R.nr > 40) { c->end(idx, "skip"); return true; }
+      bool tx = op.I(0) % 2 == 1, ty = (op.I(0) / 2) % 2 == 1;
+      int which = (int)(op.I(1) % 3);
+      Ref B;
+      fillRef(B, r, R.nr, R.nc, (int)op.I(2), 0);
+      for (int q : {RECT, SQG})
+      {
+        if (!S.rep[q] || f.bad) continue;
+        AMatrix* A2 = buildReplica(q, R);
+        AMatrix* Bq = buildReplica(q, B);
+        Mat scale;
+        Ref C;
+        if (which == 0) { C = prodRef(R, tx, B, ty, &scale); A2->prodMatMatInPlace(A2, Bq, tx, ty); }
+        else if (which == 1) { C = prodRef(B, tx, R, ty, &scale); A2->prodMatMatInPlace(Bq, A2, tx, ty); }
+        else { C = prodRef(R, tx, R, ty, &scale); A2->prodMatMatInPlace(A2, A2, tx, ty); }
+        cmpMatrix(A2, C, &scale, KN[q], std::string("prodMatMatInPlace with the destination as ") + (which == 0 ? "first" : which == 1 ? "second" : "both") + " operand(s)", f, false);
+        delete A2;
+        delete Bq;
+      }
+    }
+    else if (k == "sparse-assign")
+    {
+      // assignment and copy between sparse matrices, same and different back-ends
+      for (int from : {SPE, SPC})
+        for (int to : {SPE, SPC})
+        {
+          if (f.bad) continue;
+          MatrixSparse* src = dynamic_cast<MatrixSparse*>(buildReplica(from, R));
+          Ref Z;
+          fillRef(Z, r, 1 + (int)(op.I(0) % 5), 1 + (int)(op.I(1) % 5), 1, 0);
+          MatrixSparse* dst = dynamic_cast<MatrixSparse*>(buildReplica(to, Z));
+          *dst = *src;
+          cmpMatrix(dst, R, nullptr, std::string(KN[to]) + "<-" + KN[from], "operator=", f, true);
+          // the assigned matrix answers products like its source
+          if (!f.bad && R.nc > 0)
+          {
+            std::vector<double> x = genVec(r, R.nc, 1), e(R.nr, 0.), sc(R.nr, 0.);
+            for (int i = 0; i < R.nr; i++) { long double sm = 0, sa = 0; for (int j = 0; j < R.nc; j++) { sm += (long double)R.a[i][j] * x[j]; sa += fabsl((long double)R.a[i][j] * x[j]); } e[i] = (double)sm; sc[i] = (double)sa; }
+            cmpVector(dst->prodMatVec(VD(x)), e, &sc, std::string(KN[to]) + "<-" + KN[from], "prodMatVec after operator=", f);
+          }
+          MatrixSparse cpy(*src);
+          cmpMatrix(&cpy, R, nullptr, std::string("copy of ") + KN[from], "copy constructor", f, true);
+          delete dst;
+          delete src;
+        }
+    }
     else if (k == "copyindep")
     {
       // copies are independent of their source
@@ -927,6 +976,15 @@ struct Exec
     else if (k == "vecops")
     {
       int n = 1 + (int)(op.I(0) % 40);
+      if (op.I(4) % 4 == 0) n = 250 + (int)(op.I(0) % 500); // long vectors: blocked / threaded reductions
+      if (op.I(5) % 3 == 0)
+      {
+        static const int tc[] = {2, 3, 4, 8, 16, 1};
+        threads = tc[op.I(6) % 6];
+        setMultiThread(threads);
+        c->fp("threads=" + std::to_string(threads));
+        c->count("knob.threads." + std::to_string(threads));
+      }
       std::vector<double> a = genVec(r, n, (int)op.I(1)), b = genVec(r, n, (int)op.I(2), true);
       VectorDouble va = VD(a), vb = VD(b);
       long double s = 0, sa = 0, ip = 0, ipa = 0, n2 = 0;
@@ -942,6 +1000,8 @@ struct Exec
       chk("VectorNumT::norm", va.norm(), sqrtl(n2), sqrtl(n2));
       chk("VectorNumT::innerProduct", va.innerProduct(vb), ip, ipa);
       chk("VH::innerProduct", VH::innerProduct(va, vb), ip, ipa);
+      chk("VH::innerProduct(ptr)", VH::innerProduct(va.data(), vb.data(), n), ip, ipa);
+      chk("VH::innerProduct(span)", VH::innerProduct(constvect(va.data(), va.size()), constvect(vb.data(), vb.size())), ip, ipa);
       chk("VH::cumul", VH::cumul(va), s, sa);
       chk("VH::mean", VH::mean(va), s / n, sa / n);
       chk("VH::norm", VH::norm(va), sqrtl(n2), sqrtl(n2));
